@@ -68,6 +68,65 @@ FMNS = [1, 2, 100, 2400, 65535, 1000000]
 BIG_HMCS = [4096, 5000, 8191, 8192, 65535, 65536, 262143, 262144, 300000, 1048576, 16777215, 16777216, 134217727, 134217728, 536870912, 999999998]
 
 
+def synthetic_fens(rng, n):
+    """random placements (not game-reachable in general): kings anywhere or at home with rooks and castling rights, 0-14 further pieces,
+    sometimes an e.p. pair with its target square.  Candidates only: TLC (PosFilter) keeps the well-formed ones."""
+    out = []
+    for _ in range(n):
+        board = {}
+        rights = ""
+        if rng.random() < 0.45:
+            board[4] = "K"
+            for sq, r in ((7, "K"), (0, "Q")):
+                if rng.random() < 0.7:
+                    board[sq] = "R"
+                    if rng.random() < 0.8:
+                        rights += r
+        if rng.random() < 0.45:
+            board[60] = "k"
+            for sq, r in ((63, "k"), (56, "q")):
+                if rng.random() < 0.7:
+                    board[sq] = "r"
+                    if rng.random() < 0.8:
+                        rights += r
+        for k in "Kk":
+            if k not in board.values():
+                q = rng.randrange(64)
+                while q in board:
+                    q = rng.randrange(64)
+                board[q] = k
+        stm = rng.choice("wb")
+        ep = "-"
+        if rng.random() < 0.25:
+            f = rng.randrange(8)
+            if stm == "w":      # black has just played x7-x5
+                sq5, sq6, sq7, own = 32 + f, 40 + f, 48 + f, "P"
+            else:               # white has just played x2-x4
+                sq5, sq6, sq7, own = 24 + f, 16 + f, 8 + f, "p"
+            if sq5 not in board and sq6 not in board and sq7 not in board:
+                board[sq5] = "p" if stm == "w" else "P"
+                ep = "abcdefgh"[f] + ("6" if stm == "w" else "3")
+                for df in (-1, 1):
+                    if 0 <= f + df < 8 and rng.random() < 0.6 and (sq5 + df) not in board:
+                        board[sq5 + df] = own
+                blocked = {sq6, sq7}
+            else:
+                blocked = set()
+        else:
+            blocked = set()
+        for _ in range(rng.randrange(0, 15)):
+            q = rng.randrange(64)
+            pc = rng.choice("QRBNPqrbnp" + "Pp" * 3)
+            if q in board or q in blocked or (pc in "Pp" and (q < 8 or q >= 56)):
+                continue
+            board[q] = pc
+        f4 = board_to_fen(board, stm).split(" ")
+        f4[2] = rights or "-"
+        f4[3] = ep
+        out.append(" ".join(f4))
+    return out
+
+
 def cases_for(prop, tier, roots, rng, wd=None):
     """the case mix per property; every case is {id, fen, ops, prop, family}"""
     T = tier == "thorough"
@@ -94,6 +153,18 @@ def cases_for(prop, tier, roots, rng, wd=None):
 
     def add(fen, ops, why):
         cases.append({"id": len(cases) + 1, "family": "board", "prop": prop, "fen": fen, "ops": ops, "why": why})
+
+    # placements that no game of the corpus reaches: random candidates, TLC keeps the well-formed ones
+    synth = []
+    if wd and prop in ("C01", "C02", "C03", "C05", "C06"):
+        scand = synthetic_fens(rng, 6000 if T else 900)
+        scls = posfilter(wd, scand, "syn")
+        synth = [c for c in dict.fromkeys(scand) if scls[c]["wf"]]
+        log("%s: synthetic placements %d, well-formed %d" % (prop, len(scand), len(synth)))
+        for f in synth[: (1500 if T else 150)]:
+            add(f, [{"op": "dfs", "depth": 1}], "synthetic placement (castling rights, e.p. pairs, arbitrary material): every emitted move")
+        for f in synth[(1500 if T else 150):]:
+            add(f, [{"op": "gen"}] if prop in ("C01", "C05") else [{"op": "bare_all"}], "synthetic placement")
 
     sparse = [r for r in roots if r["n"] <= 25]
     dense = [r for r in roots if r["n"] > 25]
